@@ -1,3 +1,4 @@
+import copy
 from typing import Dict, List
 
 import numpy as np
@@ -189,10 +190,15 @@ class EighthSphere(Shape):
     def center(self):
         return self.center_point
 
-    def copy(self):
-        """A copy is projected to a searchable sphere of its own:
-        the label of the original is replaced by the copy's everywhere"""
-        copied = super().copy()
+    def __deepcopy__(self, memo):
+        """A copy - made by copy() or as a part of a copied assembly - is projected to a searchable sphere
+        of its own: the label of the original is replaced by the copy's everywhere"""
+        copied = self.__class__.__new__(self.__class__)
+        memo[id(self)] = copied
+
+        for key, value in self.__dict__.items():
+            setattr(copied, key, copy.deepcopy(value, memo))
+
         old_label = self.geometry_label
         new_label = copied.geometry_label
 
